@@ -246,6 +246,126 @@ def gen_dirc(rng, nops=50):
     ops += ["opendev 0 1", "mount 0 0 1", "usedirc 1", "list 0 0 1", "usedirc 0", "list 0 0 1", "free 0 0"] + epilogue()
     return ops
 
+def gen_pagecross(rng, nops=None):
+    """a hardfile with 3-4 bitmap pages: files large enough to run across the boundaries between bitmap pages (blocks
+    2+4064k), deleted and re-created, so that blocks on both sides of every page boundary are allocated and released"""
+    dostype = rng.randrange(6)
+    dbs = 512 if dostype & 1 else 488
+    n = rng.choice([9536, 12400, 14000])
+    ops = prologue(dostype, kind=n, clock=(2018, 8, 9, 10, 11, 12))
+    root = n // 2
+    # blocks from the root to the next page boundary, and one page more
+    to_edge = (4064 - ((root - 2) % 4064))
+    sizes = [to_edge - rng.randint(5, 40), rng.randint(30, 80), 4064 + rng.randint(-20, 20)]
+    names = []
+    for i, blocks in enumerate(sizes):
+        nm = b"p%d" % i; names.append(nm)
+        ops += [f"open 1 0 0 {hx(nm)} 2", f"write 1 {max(1, blocks) * dbs} {i + 1}", "close 1", "free 0 0"]
+    order = list(names); rng.shuffle(order)
+    for nm in order[:2]:
+        ops += [f"remove 0 0 {hx(nm)}", "free 0 0"]
+    ops += [f"open 1 0 0 {hx(b'again')} 2", f"write 1 {rng.randint(60, 200) * dbs} 9", "close 1", "free 0 0"]
+    for nm in names:
+        if nm not in order[:2]: ops += [f"open 2 0 0 {hx(nm)} 1", "read 2 4000000", "close 2"]
+    ops += [f"open 2 0 0 {hx(b'again')} 1", "read 2 400000", "close 2"] + epilogue()
+    ops += ["opendev 0 1", "mount 0 0 1", "free 0 0", "list 0 0 0"] + epilogue()
+    return ops
+
+def gen_bigrm(rng, nops=None):
+    """files with extension blocks (73..220 data blocks, incl. exact multiples of 72) removed and truncated next to
+    bystanders: the block lists of a file are collected from its extension chain"""
+    dostype = rng.randrange(6)
+    dbs = 512 if dostype & 1 else 488
+    ops = prologue(dostype, clock=(2019, 1, 2, 3, 4, 5))
+    ops += [f"open 1 0 0 {hx(b'by1')} 2", "write 1 3000 2", "close 1"]
+    nb = rng.choice([73, 100, 144, 145, 200, 216])
+    ops += [f"open 1 0 0 {hx(b'big')} 2", f"write 1 {nb * dbs - rng.choice([0, 0, 7])} 7", "close 1",
+            f"open 1 0 0 {hx(b'by2')} 2", "write 1 2000 3", "close 1", "free 0 0"]
+    if rng.random() < 0.3:
+        ops += [f"open 3 0 0 {hx(b'big')} 3", f"trunc 3 {rng.choice([10, 72, 73, 144]) * dbs}", "close 3", "free 0 0"]
+    ops += [f"remove 0 0 {hx(b'big')}", "free 0 0", f"open 1 0 0 {hx(b'new')} 2", f"write 1 {rng.choice([10, 80]) * dbs} 4", "close 1", "free 0 0"]
+    for nm in (b'by1', b'by2', b'new'): ops += [f"open 2 0 0 {hx(nm)} 1", "read 2 100000", "close 2"]
+    ops += epilogue()
+    return ops
+
+def gen_openchain(rng, nops=None):
+    """directory operations on an entry and on its hash-chain neighbours WHILE a write handle on it is open: files whose
+    names share a hash slot are created while earlier ones are still open, closed in varying orders; the open file is
+    renamed / moved / commented / re-protected, its chain successor is removed or renamed; then everything is read back"""
+    dostype = rng.randrange(8)
+    intl = bool(dostype & 6)
+    pool = NamePool(rng, intl, latin=rng.random() < 0.2)
+    slot = max(pool.by_slot, key=lambda k: len(set(fold(n, intl) for n in pool.by_slot[k])))
+    cands, seen = [], set()
+    for nm in pool.by_slot[slot]:
+        if fold(nm, intl) not in seen: seen.add(fold(nm, intl)); cands.append(nm)
+    rng.shuffle(cands)
+    ops = prologue(dostype, clock=(2016, 7, 8, 9, 10, 11))
+    if dostype & 4 and rng.random() < 0.5: ops.append("usedirc 1")
+    ops.append(f"mkdir 0 0 {hx(b'other')}")
+    names = cands[:rng.randint(3, 5)]; spare = cands[5:]
+    openh = {}
+    h = 1
+    for i, nm in enumerate(names):
+        ops += [f"open {h} 0 0 {hx(nm)} 2", f"write {h} {rng.choice([5, 600, 1500])} {i + 1}"]
+        openh[h] = nm; h += 1
+        if rng.random() < 0.3 and openh:
+            k = rng.choice(list(openh)); ops.append(f"close {k}"); del openh[k]
+    for _ in range(rng.randint(3, 7)):
+        r = rng.random()
+        live = list(dict.fromkeys(names))
+        if not live: break
+        nm = rng.choice(live)
+        if r < 0.25 and spare:
+            new = spare.pop(); ops.append(f"rename 0 0 {hx(nm)} {hx(new)}"); names[names.index(nm)] = new
+            for k in openh:
+                if openh[k] == nm: openh[k] = new
+        elif r < 0.4:
+            ops.append(f"comment 0 0 {hx(nm)} {hx(b'c' * rng.choice([1, 20, 79]))}")
+        elif r < 0.5:
+            ops.append(f"access 0 0 {hx(nm)} {rng.choice([0, 2, 64])}")
+        elif r < 0.6 and nm not in openh.values():
+            ops.append(f"remove 0 0 {hx(nm)}"); names.remove(nm)
+        elif r < 0.7:
+            ops.append(f"rename 0 0 {hx(nm)} {hx(nm[:20] + b'_m')} / {hx(b'other')}"); names.remove(nm)
+            for k in list(openh):
+                if openh[k] == nm: openh[k] = None
+        elif openh:
+            k = rng.choice(list(openh)); ops.append(f"write {k} {rng.choice([10, 700])} {k + 20}")
+    for k in sorted(openh, key=lambda _: rng.random()): ops.append(f"close {k}")
+    ops += ["list 0 0 1"]
+    for nm in names: ops += [f"open 9 0 0 {hx(nm)} 1", "read 9 5000", "close 9"]
+    ops += ["free 0 0"] + epilogue()
+    return ops
+
+def gen_slotsweep(rng, nops=None):
+    """every boundary of the 72-slot hash table: directories whose ONLY entry sits in slot 0, 71 or a random slot; the
+    directory must refuse to be removed while that entry exists, the entry must be found, renamed and removed, and the
+    directory must then go away"""
+    dostype = rng.randrange(8)
+    intl = bool(dostype & 6)
+    pool = NamePool(rng, intl, latin=rng.random() < 0.3)
+    ops = prologue(dostype, clock=(2015, 6, 7, 8, 9, 10))
+    if dostype & 4 and rng.random() < 0.5: ops.append("usedirc 1")
+    slots = [0, 71] + rng.sample(range(1, 71), 2)
+    rng.shuffle(slots)
+    for k, slot in enumerate(slots):
+        if slot not in pool.by_slot: continue
+        d = b"box%d" % k
+        nm = rng.choice(pool.by_slot[slot])
+        ops += [f"mkdir 0 0 {hx(d)}", f"chdir 0 0 {hx(d)}"]
+        if rng.random() < 0.5: ops += [f"open 1 0 0 {hx(nm)} 2", f"write 1 {rng.choice([0, 5, 700])} {k + 1}", "close 1"]
+        else: ops.append(f"mkdir 0 0 {hx(nm)}")
+        ops += ["list 0 0 0", "parent 0 0", f"remove 0 0 {hx(d)}", "list 0 0 1", f"chdir 0 0 {hx(d)}"]
+        if rng.random() < 0.5:
+            others = [x for x in pool.by_slot[slot] if fold(x, intl) != fold(nm, intl)]
+            if others:
+                new = rng.choice(others); ops.append(f"rename 0 0 {hx(nm)} {hx(new)}"); nm = new
+        ops += [f"access 0 0 {hx(nm)} 2", f"remove 0 0 {hx(nm)}", "list 0 0 0", "parent 0 0"]
+        if rng.random() < 0.7: ops.append(f"remove 0 0 {hx(d)}")
+    ops += ["list 0 0 1", "free 0 0"] + epilogue()
+    return ops
+
 def gen_chainops(rng, nops=None):
     """namespace operations inside ONE long hash chain: 6-10 entries whose names share a hash slot, then removes, renames
     (within the slot and out of it), comments and moves of entries at the head, in the middle and at the tail — every
@@ -299,7 +419,19 @@ def gen_dircfull(rng):
         nm = (b"s%02d_" % i + bytes(rng.choice(range(0x61, 0x7b)) for _ in range(nlen)))[:30]
         names.append(nm)
         ops += [f"open 1 0 0 {hx(nm)} 2", f"write 1 {rng.choice([0, 10, 700])} {i}", "close 1"]
+    # a sub-directory whose last cache block has no room for one more record (17 records of 28 bytes = 476 of 488),
+    # and a file with a short name to be moved into it once the volume is full
+    sub_n = rng.choice([0, 17, 17, 34])
+    if sub_n:
+        ops += [f"mkdir 0 0 {hx(b'sub')}", f"chdir 0 0 {hx(b'sub')}"]
+        for i in range(sub_n): ops += [f"open 1 0 0 {hx(b'a%02d' % i)} 2", "close 1"]
+        ops += ["parent 0 0", f"open 1 0 0 {hx(b'mv')} 2", "write 1 20 8", "close 1"]
     ops += [f"open 2 0 0 {hx(b'filler')} 2", f"write 2 {1800 * dbs} 5", "close 2", "free 0 0"]
+    if sub_n:
+        # every one of these needs a block that is not there: each must fail leaving everything as it was
+        ops += [f"rename 0 0 {hx(b'mv')} {hx(b'mv')} / {hx(b'sub')}", "free 0 0", "list 0 0 1",
+                f"rename 0 0 {hx(b'mv')} {hx(b'm')} / {hx(b'sub')}", f"mkdir 0 0 {hx(b'nodir')}", f"open 1 0 0 {hx(b'nofile')} 2", "close 1",
+                f"comment 0 0 {hx(b'mv')} {hx(b'c' * 60)}", "free 0 0", "list 0 0 1"]
     kill = names[-rng.randint(4, len(names) - 2):]
     rng.shuffle(kill) if rng.random() < 0.3 else kill.reverse()
     for nm in kill:
@@ -481,7 +613,12 @@ def gen_ro(rng):
     attempts = [a for a in attempts if a not in h3]
     k = rng.randrange(len(attempts) + 1)
     ops += attempts[:k] + [f"open 3 0 0 {hx(b'file')} 1", "write 3 10 1", "trunc 3 5", "flush 3", "read 3 100", "close 3"] + attempts[k:]
-    ops += ["unmount 0 0", "closedev 0", "imghash 0"]
+    ops += ["unmount 0 0"]
+    if devro and rng.random() < 0.6:
+        # formatting / re-labelling a device that was opened read-only must be refused (and leave the device usable)
+        ops.append(f"mk{'flop' if kind in ('dd', 'hd') else 'hdf'} 0 {hx(b'again')} {rng.randrange(8)}")
+        ops += ["mount 0 0 1", "list 0 0 0", "unmount 0 0"]
+    ops += ["closedev 0", "imghash 0"]
     return ops
 
 def rdb_layout(rng):
@@ -571,6 +708,16 @@ def gen_namepairs(rng, dostype=None, pairs=None, n=60):
             elif r < 0.85: M = N[:-1] if len(N) > 1 else N + b"x"
             else: M = bytes(rng.choice(alphabet) for _ in range(ln))
             pairs.append((N, M))
+        # prefix pairs in ONE hash slot (the hash depends on the length, so such pairs are rare by chance: search for them):
+        # only the length test of the lookup tells them apart
+        intl = bool(dostype & 6)
+        for _ in range(6):
+            base = bytes(rng.choice(range(0x61, 0x7b)) for _ in range(rng.choice([1, 3, 5, 12])))
+            hb = iw.amiga_hash(base, intl)
+            for _try in range(400):
+                suf = bytes(rng.choice(list(range(0x61, 0x7b)) + [0x2e, 0x30, 0x31]) for _ in range(rng.randint(1, 4)))
+                if iw.amiga_hash(base + suf, intl) == hb:
+                    pairs.append((base + suf, base)); pairs.append((base, base + suf)); break
     for N, M in pairs:
         kind = rng.random() < 0.5
         if kind: ops += [f"open 1 0 0 {hx(N)} 2", "write 1 3 1", "close 1"]
